@@ -4,6 +4,11 @@ Only names listed here are claimed; a name is added when its proof is committed.
 
 THEOREMS = {
     'C12': (['PMC.Properties.C12'], ['PMC.C12.scc_partition', 'PMC.C12.scc_nodes', 'PMC.C12.scc_exact']),
+    'C13': (['PMC.Properties.C13'], ['PMC.C13.' + t for t in (
+        'mk_wf mk_nodes mk_edges mem_next_iff_edge edge_nodes hasNode_iff addNodeRaw_wf addNodeRaw_nodes '
+        'addNodeRaw_edges addEdgeIgnore_wf addEdgeIgnore_nodes addEdgeIgnore_edges addEdge_error_iff addNode_error_iff '
+        'subgraph_wf subgraph_nodes subgraph_edges reversed_wf reversed_nodes reversed_edges reversed_reversed '
+        'clone_eq reach_exact reach_error').split()]),
 }
 
 
